@@ -122,6 +122,14 @@ class NotedError(Exception):
     __notes__ = "see the operator's handbook"
 
 
+class EndOfStream(StopIteration):
+    """What a hand-written iterator protocol raises: a subclass of StopIteration."""
+
+
+class EndOfAsyncStream(StopAsyncIteration):
+    pass
+
+
 class EmptyErrors(Exception):
     """A failure whose truth value is False (an error collection that happens to be empty, a sentinel error)."""
 
@@ -145,6 +153,8 @@ def make_exception(kind):
         "CustomWithArgs": lambda: CustomWithArgs(7, "detail"),
         "Unprintable": lambda: Unprintable("hidden"),
         "EmptyErrors": lambda: EmptyErrors("no details"),
+        "EndOfStream": lambda: EndOfStream("the payload's own source ran dry"),
+        "EndOfAsyncStream": lambda: EndOfAsyncStream("the payload's own source ran dry"),
         # what a payload gets from a stream or channel of its own whose other side went away
         "TrioClosedResourceError": lambda: __import__("trio").ClosedResourceError("the payload's own channel was closed"),
         "TrioBrokenResourceError": lambda: __import__("trio").BrokenResourceError("the payload's own peer went away"),
@@ -664,7 +674,13 @@ async def run_async(world, pspec, args, kwargs):
                 do_adopt(world, clone["id"], by=pid)
             if cleanup["kind"] == "shielded" and flavour == "trio":
                 with trio.CancelScope(shield=True):
-                    if cleanup.get("shutdown_mid"):
+                    if cleanup.get("await_gate"):
+                        # the cleanup drains what another payload still delivers while *that* one is being torn down
+                        gate, waited = world.gate(cleanup["await_gate"]), 0.0
+                        while not gate.is_set() and waited < 60:
+                            await trio.sleep(0.005)
+                            waited += 0.005
+                    elif cleanup.get("shutdown_mid"):
                         # the cleanup asks for an orderly shutdown of the whole runtime, from a helper thread, and waits for it
                         await trio.sleep(cleanup["dur"] / 2)
                         await trio.to_thread.run_sync(do_shutdown, world, pid + "/cleanup")
@@ -720,6 +736,8 @@ async def run_async(world, pspec, args, kwargs):
         finally:
             if cleanup["kind"] == "sync":
                 time.sleep(cleanup["dur"])
+                if cleanup.get("open_gate"):
+                    world.gate(cleanup["open_gate"]).set()  # the end-of-stream marker others wait for
                 LOG("cleanup-done", pid=pid, gen=world.gen, how="sync")
     except Finished as fin:
         return fin.value
